@@ -183,6 +183,14 @@ def install(I):
     I.lib["nx.Graph"] = ClassVal("Graph", None)
     I.lib["nx.DiGraph"] = ClassVal("DiGraph", None)
 
+    def _type(I_, st, args, kw):
+        # type(g) of a graph object: its class (so that `type(g)()` builds an empty graph of the same kind)
+        if len(args) == 1 and is_graph(args[0]):
+            yield ClassVal(args[0].kind.extra, None), st
+            return
+        raise Unsupported("type() of a non-graph value")
+    I.lib["type"] = BuiltinVal("type", _type)
+
     def copy_graph(st, src, cls=None):
         cls = cls or src.kind.extra
         s1, ref = I.alloc(st, cls)
